@@ -6,6 +6,7 @@ import (
 	"bytes"
 	"io"
 	"net"
+	"os"
 	"time"
 )
 
@@ -23,11 +24,17 @@ type vpConn struct {
 	closes         int
 	writeAfterClos bool
 	readAfterClose bool
+	// deadlines as net.Conn documents them: an absolute time after which reads / writes fail
+	hasRdl, hasWdl bool
+	rdl, wdl       time.Time
 }
 
 func (c *vpConn) Read(p []byte) (int, error) {
 	if c.closes > 0 {
 		c.readAfterClose = true
+	}
+	if c.hasRdl && time.Now().Sub(c.rdl) > 0 {
+		return 0, os.ErrDeadlineExceeded
 	}
 	return c.in.Read(p)
 }
@@ -35,16 +42,28 @@ func (c *vpConn) Write(p []byte) (int, error) {
 	if c.closes > 0 {
 		c.writeAfterClos = true
 	}
+	if c.hasWdl && time.Now().Sub(c.wdl) > 0 {
+		return 0, os.ErrDeadlineExceeded
+	}
 	c.writes++
 	c.written = append(c.written, p...)
 	return len(p), nil
 }
-func (c *vpConn) Close() error                       { c.closes++; return nil }
-func (c *vpConn) LocalAddr() net.Addr                { return vpAddr{} }
-func (c *vpConn) RemoteAddr() net.Addr               { return vpAddr{} }
-func (c *vpConn) SetDeadline(t time.Time) error      { return nil }
-func (c *vpConn) SetReadDeadline(t time.Time) error  { return nil }
-func (c *vpConn) SetWriteDeadline(t time.Time) error { return nil }
+func (c *vpConn) Close() error         { c.closes++; return nil }
+func (c *vpConn) LocalAddr() net.Addr  { return vpAddr{} }
+func (c *vpConn) RemoteAddr() net.Addr { return vpAddr{} }
+func (c *vpConn) SetDeadline(t time.Time) error {
+	c.SetReadDeadline(t)
+	return c.SetWriteDeadline(t)
+}
+func (c *vpConn) SetReadDeadline(t time.Time) error {
+	c.hasRdl, c.rdl = !t.IsZero(), t
+	return nil
+}
+func (c *vpConn) SetWriteDeadline(t time.Time) error {
+	c.hasWdl, c.wdl = !t.IsZero(), t
+	return nil
+}
 
 type vpCBErr struct{ msg string }
 
@@ -118,11 +137,18 @@ func vpC05Run(stream []byte, maxReads int, endErr error, cbOK bool, cbMsg string
 	vpC05RunOn(&vpConn{in: &vpFragReader{data: stream, maxReads: maxReads, maxZeros: 0, endErr: endErr}}, stream, endErr, cbOK, cbMsg, cbErr)
 }
 
+// vpCBSeconds: how long the authentication callback takes (a slow KDF, a loaded store): 0 unless
+// a unit sets it
+var vpCBSeconds int
+
 func vpC05RunOn(conn *vpConn, stream []byte, endErr error, cbOK bool, cbMsg string, cbErr error) {
 	rec := &vpCBRec{}
 	s := &Server{cb: func(login, password, service, realm string) (bool, string, error) {
 		rec.calls++
 		rec.login, rec.password, rec.service, rec.rlm = login, password, service, realm
+		if vpCBSeconds > 0 {
+			vpSleep(vpCBSeconds)
+		}
 		return cbOK, cbMsg, cbErr
 	}}
 	s.handleConnection(conn)
@@ -205,6 +231,20 @@ func VP_C05_ReplyForEveryCallbackResult() {
 		cbErr = vpCBErr{vpLongStr("cb-errmsg", vpMsgLen("cb-errlen"))}
 	}
 	vpC05Run(stream, 1, io.EOF, cbOK, cbMsg, cbErr)
+	vpCover("end")
+}
+
+// Unit B2: the callback takes its time (0..8 s): whatever time limits the server puts on the
+// connection, a complete request still gets exactly one reply carrying the callback's verdict.
+func VP_C05_SlowCallback() {
+	var l [4]int
+	l[0], l[1], l[2], l[3] = 2, 1, 1, 0
+	r := vpReq(l)
+	stream := refEncode(r.Login, r.Password, r.Service, r.Realm)
+	vpCBSeconds = []int{0, 1, 4, 8}[vpChoose("cb-seconds", 4)]
+	cbOK := vpBool("cb-ok")
+	vpC05Run(stream, 1, io.EOF, cbOK, vpStr("cb-msg", 1), nil)
+	vpCBSeconds = 0
 	vpCover("end")
 }
 
